@@ -6,8 +6,10 @@ import json
 import random
 from datetime import datetime as dt, timedelta as td
 
-from .. import rt
+from .. import gen, rt
 from ..common import Check, Diff, esc, exn_tag
+
+LOG_BY_CODE: dict = {}
 
 CTL = "01:145038"
 IDX_OK = [0, 1, 7, 11, 15, "00", "01", "0B", "0F"]
@@ -110,7 +112,7 @@ def cases(rnd: random.Random, thorough: bool) -> list[Case]:
         A(Case("set_dhw_mode", (CTL,), dict(mode="permanent_override", active=active), True, {"mode": "permanent_override", "active": active}))
         A(Case("set_dhw_mode", (CTL,), dict(active=active, until=until), True, {"mode": "temporary_override", "active": active, "until": until.isoformat()}))
         A(Case("set_dhw_mode", (CTL,), dict(active=active, duration=30), True, {"mode": "countdown_override", "active": active}, tag="countdown"))
-    A(Case("set_dhw_mode", (CTL,), dict(mode="follow_schedule"), True, {"mode": "follow_schedule"}))
+    A(Case("set_dhw_mode", (CTL,), dict(mode="follow_schedule"), True, {"mode": "follow_schedule", "active": None}))   # (no target asked for: none decoded)
     for kw in (dict(), dict(mode="permanent_override"), dict(active=True, until=until, duration=3), dict(mode="bogus", active=True)):
         A(Case("set_dhw_mode", (CTL,), kw, False, {}))
     # --- sensors (faked devices)
@@ -271,6 +273,7 @@ def run(chk: Check) -> None:
     from ramses_tx import exceptions as exc
     from ramses_tx.command import CODE_API_MAP, Command
     from ramses_tx.message import Message
+    from ramses_tx.packet import Packet
 
     rnd = random.Random(chk.seed)
     thorough = chk.tier == "thorough"
@@ -287,6 +290,20 @@ def run(chk: Check) -> None:
     )
     cs = cases(rnd, thorough)
     covered = set()
+    LOG_BY_CODE.clear()
+    for fr in gen.repo_log_frames(20000):
+        if fr[:2] in (" I", "RP"):
+            LOG_BY_CODE.setdefault(fr[37:41], []).append(fr)
+    # ... and, for every code a constructor builds, schema-valid announcements / replies of that code (the logs hold few of them)
+    _pairs = {}
+    for code, verb, pat in gen.schema_pairs():
+        if verb in (" I", "RP"):
+            _pairs.setdefault(code, []).append((code, verb, pat))
+    for code, prs in _pairs.items():
+        for _ in range(12):
+            fr = gen.gen_schema_frame(rnd, prs)
+            if fr:
+                LOG_BY_CODE.setdefault(code, []).append(fr)
     for c in cs:
         chk.evaluations += 1
         covered.add(c.name)
@@ -310,6 +327,18 @@ def run(chk: Check) -> None:
             # the one constructor registered under two verbs takes the verb as an argument: what it builds is of that verb
             chk.violation(f"put_bind:wrong_verb:{c.args[0].strip()}->{str(cmd.verb).strip()}", f"{c.label()} was asked for verb {c.args[0]!r} and builds {str(cmd)!r}",
                           {"op": "build", "constructor": c.name, "args": repr(c.args), "kwargs": repr(c.kwargs), "frame": str(cmd)})
+        # (a gateway has decoded other traffic of that code by the time it builds a command: the controller's announcements
+        #  and replies found in the repo's logs - what a built command decodes to does not depend on them)
+        try:
+            before = json.dumps(Message._from_cmd(fn(*c.args, **c.kwargs)).payload, sort_keys=True, default=str)
+        except Exception:  # noqa: BLE001
+            before = None
+        for fr in rnd.sample(LOG_BY_CODE.get(str(cmd.code), []), min(3, len(LOG_BY_CODE.get(str(cmd.code), [])))) if chk.evaluations % 2 else ():
+            try:
+                _ = Message(Packet(dt.now(), "045 " + fr)).payload
+                chk.count("decoded_log_frame_of_the_code_first")
+            except Exception:  # noqa: BLE001
+                pass
         try:
             msg = Message._from_cmd(cmd)
             payload = msg.payload
@@ -322,6 +351,10 @@ def run(chk: Check) -> None:
             chk.violation(f"{c.name}:decode_escape:{exn_tag(e)}", f"{c.label()} builds {str(cmd)!r}; decoding raises {type(e).__name__}: {e}",
                           {"op": "decode", "constructor": c.name, "frame": str(cmd)})
             continue
+        after = json.dumps(payload, sort_keys=True, default=str)
+        if before is not None and after != before:
+            chk.violation(f"{c.name}:decode_depends_on_other_traffic", f"{c.label()} -> {str(cmd)!r} decoded to {before} and, after other packets of code {cmd.code} "
+                          f"had been decoded, to {after}", {"op": "decode", "constructor": c.name, "args": repr(c.args), "kwargs": repr(c.kwargs), "frame": str(cmd)})
         # values
         if isinstance(payload, dict):
             for k, want in c.expect.items():
